@@ -372,6 +372,27 @@ def confOps (c : Conf.Config) : List String → List String → String
     | ["r"] => confOps c.reload rest ("ok" :: acc)
     | _ => confOps c rest ("bad" :: acc)
 
+/-! ### scripts -/
+
+def parseCfg (tok : String) : CfgVal :=
+  match tok.toList with
+  | 'i' :: r => .int ((String.ofList r).toInt?.getD 0)
+  | 'b' :: r => .bool (r == ['1'])
+  | 's' :: r => .str (unh (String.ofList r))
+  | _ => .none
+
+def parseOpts (tok : String) : Script.Opts :=
+  (unlist tok).filterMap (fun kv => match kv.splitOn "=" with
+    | [k, v] => some (unh k, parseCfg v)
+    | _ => none)
+
+def backendDefaults (b : String) : Script.Opts :=
+  match b with
+  | "slurm" => Generated.slurmDefaults
+  | "sge" => Generated.sgeDefaults
+  | "lsf" => Generated.lsfDefaults
+  | _ => []
+
 def dispatch (toks : List String) : String :=
   match toks with
   | ["ping"] => "pong"
@@ -485,6 +506,17 @@ def dispatch (toks : List String) : String :=
      | _ => match LStatus.ofName? c with
        | some l => (match St.localState l with | some b => (St.shown b (bool! stale)).name | none => "keyerror")
        | none => "keyerror")
+  | ["script", b, proj, logMode, name, wd, spec, wfd, tpl, kw] =>
+    let targetOpts := Script.chain [parseOpts wfd, parseOpts tpl, parseOpts kw]
+    let opts := Script.resolve (backendDefaults b) targetOpts
+    let text := match b with
+      | "slurm" => Script.compileSlurm (unh proj) (unh logMode) (unh name) (unh wd) (unh spec) opts
+      | "sge" => Script.compileSge (unh proj) (unh name) (unh wd) (unh spec) opts
+      | _ => Script.compileLsf (unh proj) (unh name) (unh wd) (unh spec) opts
+    toh text ++ " unknown=" ++ ",".intercalate ((Script.unknownOptions (backendDefaults b) targetOpts).map toh)
+  | ["cleanlogs", files, targets] => mklist ((Script.cleanLogs ((unlist files).map unh) ((unlist targets).map unh)).map toh)
+  | ["shell.words", s] => mklist ((Shell.words (unhc s)).map tohc)
+  | ["shell.quote", s] => tohc (Shell.quote (unhc s))
   | ["validname", n] => showBool (Wfl.validName (unh n))
   | ["validpath", n] => showBool (Wfl.validPath (unh n))
   | ["targetwd", t, w] => toh (Wfl.targetWd (if t == "-" then none else some (unh t)) (unh w))
